@@ -146,14 +146,14 @@ class CartesianGrid(Grid):
     @staticmethod
     def _get_automatic_weights(coords):
         if coords.is_regular:
-            return np.prod(coords.delta)
+            return np.abs(np.prod(coords.delta))
         elif coords.is_separated:
             weights = []
             for i in range(len(coords)):
                 x = coords.separated_coords[i]
                 w = (x[2:] - x[:-2]) / 2.
                 w = np.concatenate(([x[1] - x[0]], w, [x[-1] - x[-2]]))
-                weights.append(w)
+                weights.append(np.abs(w))
 
             return _prod(np.ix_(*weights[::-1])).ravel()
 
